@@ -40,6 +40,16 @@ CLAIMED = {
             "For each sampled base run every fault position is injected in turn (unrecoverable/recoverable density error at every evaluation of every chain, storage record/finalize/flush/inspect/new_trace/initialize errors at every call, Model::math and init_position failures, first n / all initialisation attempts failing), each under several schedules, plus batches with 2-3 simultaneous faults; a fired fatal fault must surface as Err through wait_timeout/abort, never as panic, hang or success; recoverable faults never end a chain.",
             "Base runs are sampled (seeded), positions within a base run are enumerated (strided beyond 48 evaluations per chain). abort() returning Ok after a chain error is counted, not flagged.",
             "DESIGN.md §5 C13"),
+    "C14": (ENGINE_C, "exploration",
+            "real storage backends driven through the storage traits with histories of real chains under fault injection, seeded hash order and seeded interleaving of chains/flush/inspect; read-back compared with a recording model",
+            "Seeded search over histories (six presets, 1..4 chains, num_tune/num_draws incl. 0 and 1, natural and injected divergences, transformation updates, expanded variables of every value type and shape with NaN/inf/empty/non-ASCII values), aborted prefixes, chunk sizes, store_warmup, and hash orders (a function of the seed). HashMap, ndarray, Arrow and Zarr (sync) are finalised/inspected and read back (Zarr by a fresh zarrs reader on a store snapshot) and compared value by value, type by type, in order, warmup before sampling, with the recording model; event arrays must have exactly the number of events that occurred.",
+            "CSV and the async Zarr writer are not driven yet. NaN payloads are not compared. The model is the list of values handed to record_sample.",
+            "DESIGN.md §5 C14"),
+    "C15": (ENGINE_C, "fault_enumeration",
+            "Zarr writer over a fault/snapshot store: crash point after every flush, k-th store write failing",
+            "Per history a flush follows recorded draws with probability up to 1 (crash point after every recorded draw), for chunk sizes 1, smaller than, equal to, larger than and not dividing the draw counts; after each flush a fresh zarrs reader on a snapshot of the store must read the acknowledged prefix of every variable and statistic of the flushed chain (all chains' earlier acknowledgements are re-checked periodically and after finalize). A second batch fails the k-th store write: the call must return Err without panic and acknowledged prefixes must still read back.",
+            "Sync writer on MemoryStore only (async writer / filesystem store not covered, see DESIGN.md §9). A crash is modelled as 'nothing after this store state survives'.",
+            "DESIGN.md §5 C15"),
 }
 
 NOT_APPLICABLE = {
